@@ -242,6 +242,15 @@ pub fn silence_panics() {
     std::panic::set_hook(Box::new(|_| {}));
 }
 
+/// Run a binary's main function on a thread with the default (2 MiB) stack of the worker threads, so that a
+/// replayed transition meets the same stack limit as it did during exploration (the main thread has 8 MiB)
+pub fn on_worker_stack(f: fn()) {
+    match std::thread::Builder::new().name("vmain".into()).spawn(f).expect("spawn").join() {
+        Ok(()) => {}
+        Err(_) => std::process::exit(101),
+    }
+}
+
 /// run a call into the code under test; an unwinding panic becomes the observation `Panic`
 pub fn guard<Z: ZNum>(f: impl FnOnce() -> Obs<Z>) -> Obs<Z> {
     match catch_unwind(AssertUnwindSafe(f)) {
@@ -301,7 +310,10 @@ impl Run {
             deadline_s = if tier == Tier::Quick { 240.0 } else { 3.0 * 3600.0 };
         }
         silence_panics();
-        crumbs::install(if replay.is_some() { 20 } else { 60 });
+        // hang watchdog: 60 s without progress in a worker (20 s when replaying one transition); the driver
+        // re-runs with a long limit when a reported hang turns out to be a slow but terminating transition
+        let hang_s = std::env::var("VERIF_HANG_S").ok().and_then(|s| s.parse::<u64>().ok()).unwrap_or(if replay.is_some() { 20 } else { 60 });
+        crumbs::install(hang_s);
         let debug = cfg!(debug_assertions);
         Run {
             property: property.to_string(),
@@ -1225,9 +1237,16 @@ impl Run {
         let pb: Vec<B> = plan.b.iter().map(|x| conv(x)).collect();
         let pc: Vec<B> = plan.c.iter().map(|x| conv(x)).collect();
         let cfg = config.clone();
+        let (start, deadline) = (self.start, self.deadline_s);
+        let capped = std::sync::atomic::AtomicBool::new(false);
         let l = par_chunks(self.threads, plan.a.len(), |lo, hi, l| {
             crumbs::relabel(l.slot, &cfg, &plan.label);
             for ai in lo..hi {
+                if start.elapsed().as_secs_f64() > deadline {
+                    // wall-clock cap (slow code under test): stop cleanly, the evidence says so
+                    capped.store(true, std::sync::atomic::Ordering::Relaxed);
+                    break;
+                }
                 let a = plan.a[ai];
                 let a2 = conv(&a);
                 let step = |i: usize, bi: usize, ci: usize, ra: &[A; 3], rb: &[B; 3], aux: u64, l: &mut Local| {
@@ -1268,6 +1287,9 @@ impl Run {
                 }
             }
         });
+        if capped.load(std::sync::atomic::Ordering::Relaxed) {
+            self.cap_hit = true;
+        }
         let states = plan.a.len() as u64 * (1 + plan.b.len() as u64);
         self.merge(&config, &plan.label, if widen { "widening commutes (table operations)" } else { "differential (all table operations)" }, states, l);
     }
@@ -1549,7 +1571,14 @@ pub mod crumbs {
             }
         }
     }
+    static DUMPING: std::sync::atomic::AtomicBool = std::sync::atomic::AtomicBool::new(false);
     extern "C" fn on_signal(_sig: i32) {
+        // one dump only: a second crashing thread waits for the first one's _exit
+        if DUMPING.swap(true, Relaxed) {
+            loop {
+                std::hint::spin_loop();
+            }
+        }
         let mine = MINE.with(|m| m.get());
         if mine != usize::MAX {
             dump(b"CRASH-AT", Some(mine));
